@@ -178,7 +178,9 @@ def _analyze_node(node, config: Config, cwd: Path, *, remote: bool = False) -> D
             pattern_text = getattr(pattern, "pattern", None)
             if pattern_text and isinstance(pattern_text, str):
                 decisions.extend(
-                    _analyze_string_cmdsubs(pattern_text, config, cwd, remote=remote)
+                    _analyze_string_cmdsubs(
+                        pattern_text, config, cwd, remote=remote, procsub=True
+                    )
                 )
             if hasattr(pattern, "body") and pattern.body:
                 decisions.append(
@@ -627,7 +629,9 @@ def _analyze_cond_operand(
     value = getattr(word, "value", None)
     if value and isinstance(value, str) and "'" not in value:
         # (text containing single quotes is literal there; nothing to expand)
-        return _analyze_string_cmdsubs(value, config, cwd, remote=remote)
+        return _analyze_string_cmdsubs(
+            value, config, cwd, remote=remote, procsub=True
+        )
     return []
 
 
@@ -698,7 +702,9 @@ def _analyze_expansion_part(
         for text in (getattr(part, "param", None), getattr(part, "arg", None)):
             if text and isinstance(text, str):
                 decisions.extend(
-                    _analyze_string_cmdsubs(text, config, cwd, remote=remote)
+                    _analyze_string_cmdsubs(
+                        text, config, cwd, remote=remote, procsub=True
+                    )
                 )
     elif part_kind == "arith":
         # The parsed expression tree drops some substitutions; the word's source has them all
@@ -764,14 +770,24 @@ def _find_cmdsub_end(s: str, start: int) -> tuple[int, bool]:
 
 
 def _analyze_string_cmdsubs(
-    s: str, config: Config, cwd: Path, *, remote: bool = False
+    s: str,
+    config: Config,
+    cwd: Path,
+    *,
+    remote: bool = False,
+    procsub: bool = False,
 ) -> list[Decision]:
-    """Extract and analyze command substitutions from a raw string."""
+    """Extract and analyze command substitutions from a raw string.
+
+    With procsub=True, <(...) and >(...) are looked for as well: bash performs process
+    substitution in parameter-expansion arguments, [[ ]] operands and case patterns
+    (not in arithmetic, where "<(" is a comparison, nor in here-documents).
+    """
     decisions = []
     i = 0
     while i < len(s):
         # Look for $( pattern
-        if s[i : i + 2] == "$(":
+        if s[i : i + 2] == "$(" or (procsub and s[i : i + 2] in ("<(", ">(")):
             # Find matching closing paren, accounting for nesting, quotes and escapes
             start = i + 2
             j, reliable = _find_cmdsub_end(s, start)
